@@ -27,6 +27,7 @@ LC_CFG = """CONSTANTS
   Caps = {0, 1}
   Kinds = %s
   Profiles = %s
+  DefaultProfileDBs = {"a"}
   Fields = %s
   MaxUpd = %d
   MaxRestart = %d
@@ -100,25 +101,28 @@ def server_phase(chk, wd, thorough):
     t_all = time.time()
     wd = os.path.join(wd, "srv")
     os.makedirs(wd, exist_ok=True)
-    nsched = 24 if thorough else 6
-    length = 30 if thorough else 24
-    with cf.ThreadPoolExecutor(4) as ex:
+    nsched = 18 if thorough else 6
+    length = 30 if thorough else 22
+    with cf.ThreadPoolExecutor(6) as ex:
         f_build = ex.submit(vlib.go_build, "c03srv")
-        f_mc = ex.submit(vlib.run_tlc, "ServerLifecycle", "lc_mc.cfg", None, 4, 1500, (), None, [("lc_mc.cfg", mc_cfg(False, thorough))], None, False, "C03srv_mc")
+        f_mc = ex.submit(vlib.run_tlc, "ServerLifecycle", "lc_mc.cfg", None, 2, 1500, (), None, [("lc_mc.cfg", mc_cfg(False, thorough))], None, False, "C03srv_mc")
         f_an = ex.submit(vlib.run_tlc, "ServerLifecycle", "lc_an.cfg", None, 1, 600, (), None, [("lc_an.cfg", mc_cfg(True, thorough))], None, False, "C03srv_an")
-        f_sim = ex.submit(vlib.run_tlc, "ServerLifecycle", "lc_sim.cfg", None, 1, 1500,
-                          ["-simulate", "num=%d" % (240 if thorough else 60), "-depth", str(length + 6), "-seed", str(chk.seed)], None,
-                          [("lc_sim.cfg", sim_cfg(length))], None, False, "C03srv_sim")
-        sim = f_sim.result()
-        if sim.error or sim.violation:
-            raise MachineryFault("ServerLifecycle simulation: %s %s\n%s" % (sim.error, sim.violation, sim.out[-2000:]))
+        nsim = 3
+        f_sims = [ex.submit(vlib.run_tlc, "ServerLifecycle", "lc_sim.cfg", None, 1, 1500,
+                            ["-simulate", "num=%d" % (80 if thorough else 16), "-depth", str(length + 6), "-seed", str(chk.seed * nsim + i)], None,
+                            [("lc_sim.cfg", sim_cfg(length))], None, False, "C03srv_sim") for i in range(nsim)]
         # the simulator evaluates the invariant on every successor: one behaviour per distinct prefix
-        cands, seen = [], set()
-        for v in vlib.printed_json(sim.out):
-            k = json.dumps(v["ops"][:-1])
-            if k not in seen:
-                seen.add(k)
-                cands.append(v)
+        cands, seen, simwall = [], set(), 0
+        for f in f_sims:
+            sim = f.result()
+            if sim.error or sim.violation:
+                raise MachineryFault("ServerLifecycle simulation: %s %s\n%s" % (sim.error, sim.violation, sim.out[-2000:]))
+            simwall = max(simwall, sim.wall)
+            for v in vlib.printed_json(sim.out):
+                k = json.dumps(v["ops"][:-1])
+                if k not in seen:
+                    seen.add(k)
+                    cands.append(v)
         if len(cands) < nsched * 3:
             raise MachineryFault("ServerLifecycle simulation printed only %d behaviours" % len(cands))
         scheds, covered = select(cands, nsched)
@@ -127,7 +131,7 @@ def server_phase(chk, wd, thorough):
         if not need <= hows or not any(h.endswith("+updated") for h in hows) or not any(f[0] == "write-after-promotion" for f in covered):
             raise MachineryFault("the selected schedules do not cover every way a store is opened: %s" % sorted(hows))
         vlib.log("[C03srv] %d behaviours simulated (%.0fs), %d selected, %d (how-opened x kind) combinations, classes %s"
-                 % (len(cands), sim.wall, len(scheds), sum(1 for f in covered if f[0] == "how-kind"), sorted(hows)))
+                 % (len(cands), simwall, len(scheds), sum(1 for f in covered if f[0] == "how-kind"), sorted(hows)))
         binp = f_build.result()
         # ---- replay on the real server: a few harness processes side by side (the hook sink is process-wide)
         procs = 3
@@ -139,8 +143,8 @@ def server_phase(chk, wd, thorough):
             dd = os.path.join(wd, "d%d" % gi)
             os.makedirs(dd, exist_ok=True)
             tf = os.path.join(wd, "trace%d.ndjson" % gi)
-            args = ["-schedules", sf, "-dir", dd, "-out", tf, "-seed", str(chk.seed), "-workers", "2", "-maxpoints", "0" if thorough else "36"]
-            out, _ = vlib.run_harness(binp, args, timeout=3000 if thorough else 900, env={"GOMAXPROCS": "4"})
+            args = ["-schedules", sf, "-dir", dd, "-out", tf, "-seed", str(chk.seed), "-workers", "2", "-maxpoints", "0" if thorough else "24", "-maxpoints-default", "60" if thorough else "8"]
+            out, _ = vlib.run_harness(binp, args, timeout=3000 if thorough else 900, env={"GOMAXPROCS": "3"})
             return json.loads(out), open(tf).readlines()
         t0 = time.time()
         reps = list(ex.map(replay, range(procs)))
@@ -239,7 +243,7 @@ def server_phase(chk, wd, thorough):
     chk.sample({"server_schedule": ops_of(scheds[0]), "maxActiveDatabases": scheds[0]["cap"]})
     chk.assumptions += ["server phase: a store's trace is cut per database directory: crash images are per store (the consistency between systemdb's settings record and the "
                         "database directory across a crash is not examined); crash modes kill and power0 (only fsynced content)",
-                        "server phase: quick tier samples 36 crash points per store and schedule (always the first point after each acknowledgement and the last one); thorough: every point"]
+                        "server phase: quick tier samples 24 crash points per store and schedule, 8 for stores with the default limits (always the first point after each acknowledgement and the last one); thorough: every point, 60 for stores with the default limits"]
     if thorough or os.environ.get("VERIF_SELFTEST"):
         selftest(chk, wd, binp, scheds, segs)
     return scheds
@@ -255,7 +259,7 @@ def selftest(chk, wd, binp, scheds, segs):
     json.dump({"schedules": [scheds[i]]}, open(sf, "w"))
     dd = os.path.join(wd, "dself")
     os.makedirs(dd, exist_ok=True)
-    out, _ = vlib.run_harness(binp, ["-schedules", sf, "-dir", dd, "-out", os.path.join(wd, "self.ndjson"), "-selftest", "-maxpoints", "2", "-workers", "2"], timeout=900)
+    out, _ = vlib.run_harness(binp, ["-schedules", sf, "-dir", dd, "-out", os.path.join(wd, "self.ndjson"), "-selftest", "-maxpoints", "2", "-maxpoints-default", "2", "-workers", "2"], timeout=900)
     sigs = [v["sig"] for v in json.loads(out).get("violations") or []]
     if not any(s.startswith("server-lifecycle:store-opened-with-wrong-durability:reloaded") for s in sigs):
         raise MachineryFault("self-test: corrupted expectation of the effective options was not reported (%s)" % sigs)
